@@ -694,3 +694,44 @@ def simulate_poly(rng, tmp, p):
     sim.vcf = os.path.join(tmp, "in.vcf")
     d.write(sim.vcf)
     return sim
+
+
+def truth_phased_doc_poly(sim, rng, block_len=(3, 8)):
+    """Polyploid truth phasing encoded with PS: GT = alleles of the P haplotypes in a per-block random haplotype order."""
+    import copy
+
+    from wv.gen import vcf as gvcf
+
+    d = gvcf.Doc()
+    d.meta = list(sim.doc.meta) + ['##FORMAT=<ID=PS,Number=1,Type=Integer,Description="Phase set identifier">']
+    d.samples = list(sim.doc.samples)
+    d.contigs = list(sim.doc.contigs)
+    d.records = copy.deepcopy(sim.doc.records)
+    P = sim.ploidy
+    blocks = {}
+    for s in sim.samples:
+        si = d.samples.index(s)
+        for c in sim.chroms:
+            st = None
+            for r in d.records:
+                if r["chrom"] != c:
+                    continue
+                i = [v["pos"] + 1 for v in sim.variants[c]].index(r["pos"])
+                al = [sim.haps[c][s][h][i] for h in range(P)]
+                if len(set(al)) < 2:
+                    continue
+                if st is None or st[1] <= 0:
+                    perm = list(range(P))
+                    rng.shuffle(perm)
+                    st = [r["pos"], rng.randint(*block_len), perm]
+                st[1] -= 1
+                ordered = tuple(al[st[2][h]] for h in range(P))
+                r["calls"][si]["GT"] = "|".join(str(x) for x in ordered)
+                r["calls"][si]["PS"] = str(st[0])
+                blocks.setdefault((c, s), {}).setdefault(st[0], []).append((r["pos"], tuple(str(x) for x in ordered)))
+    for r in d.records:
+        if any("PS" in c for c in r["calls"]):
+            r["fmt"] = r["fmt"] + ["PS"]
+            for c in r["calls"]:
+                c.setdefault("PS", ".")
+    return d, blocks
